@@ -160,6 +160,21 @@ CLAIMS = {
         '"valid types" premise only (no alarm in that corner). No axioms.',
    technique='Coq proofs (accumulator invariant, nested induction over the node tree) + correspondence over registered subsets + oracle',
    ref='section 9, C05'),
+ 'C17': dict(
+   category='proof',
+   text='Coq theorems over a lexer/parser model of the enum rule language (Model/EnumParse.v): whatever Check() accepts is an enum text of '
+        'the declarative grammar (blanks, "[", then RFC 8259 scalars without exponent separated by commas, "]", with blanks, newlines, '
+        '"//" and "/* */" annotations between the items), Values() lists exactly its scalars in order, and no two of them denote the same '
+        'string (escapes and UTF-8 decoded) or are the same literal; for all byte strings. Tie: model vs Check()/Values() - verdict, '
+        'literals, kinds - on every concatenation of up to 4 (quick) / 5 (thorough) of 16 tokens, structured random lists over a pool of '
+        'tricky scalars with 12 annotation layouts, all truncations of a sample and every ordered pair of the pool; an independent '
+        'reference parser (regex + json.loads) as oracle; `enum: @name` against the inline list on the real loader (differential).',
+   note='Trusted: Coq kernel; the model is a parser for the language, not a transcription of the state machine - the tie is the '
+        'correspondence; reference parser; harness. Partial: the converse (every enum text is accepted) is not proved, it is covered by the '
+        'correspondence and the oracle only; the named/inline equivalence is a differential test of the two code paths. A lone surrogate '
+        'escape is read as U+FFFD (as the code does). No axioms.',
+   technique='Coq soundness proof of a language model against an inductive grammar + token-exhaustive correspondence + reference-parser oracle',
+   ref='section 9, C17'),
 }
 
 def main():
